@@ -492,13 +492,15 @@ TEXT_FILE = os.path.join(os.path.dirname(os.path.dirname(os.path.abspath(__file_
 
 
 def display_table(cfg, body, adt_path):
-    """For a `Display::fmt` of an enum: {variant name: [literal text, [displayed arguments]]}, or None with a reason.  Recognised
-    writers: write!(f, "..{}..", args) (Formatter::write_fmt of Arguments::new / from_str) and f.write_str("..")."""
+    """For a `Display::fmt` of an enum: {variant name: [text with {} placeholders, [displayed values]]}, or None with a reason.
+    The formatter's output is read as the sequence of writes on `f` along the path: write!(f, ..) / f.write_fmt(format_args!(..)),
+    f.write_str(".."), f.write_char(c), Display::fmt(x, f).  A path that stops early on a write error (`?`) is a prefix of the
+    variant's full sequence."""
     adt = cfg.bio.adts.get(adt_path)
     if not adt:
         return None, "enum %s not found" % adt_path
     paths, _ = analyse(cfg, body)
-    out = {}
+    seqs = {}
     for p in paths:
         if p.end != "return":
             continue
@@ -509,35 +511,58 @@ def display_table(cfg, body, adt_path):
         if vidx is None or vidx >= len(adt["variants"]):
             return None, "a path is not selected by the variant of self: " + p.describe()[:120]
         vname = adt["variants"][vidx]["name"]
-        t = p.ret
-        text, args = None, []
-        if is_call(t, re.compile(r"^std::fmt::Formatter::<'_>::write_str$")) and isinstance(t[2][1], tuple) and t[2][1][0] == "str":
-            text = t[2][1][1]
-        elif is_call(t, re.compile(r"^std::fmt::Formatter::<'_>::write_fmt$")):
-            a = t[2][1]
-            if is_call(a, re.compile(r"^std::fmt::Arguments::<'_>::from_str$")) and a[2][0][0] == "str":
-                text = a[2][0][1]
-            elif is_call(a, re.compile(r"^std::fmt::Arguments::<'_>::new::<")) and a[2][0][0] == "mem" and a[2][1][0] == "array":
-                # the template interleaves length-prefixed literal pieces with placeholder opcodes (>= 0x80)
-                bs, i, pieces = list(a[2][0][1]), 0, []
-                while i < len(bs):
-                    b = bs[i]
-                    if b == 0:
-                        break
-                    if b < 0x80:
-                        pieces.append(bytes(bs[i + 1:i + 1 + b]).decode("utf-8", "replace"))
-                        i += 1 + b
-                    else:
-                        pieces.append("{}")
-                        i += 1
-                text = "".join(pieces)
-                for x in a[2][1][1]:
-                    args.append(re.sub(r"\(arg1 as %s\)" % re.escape(vname), "$V", show(x)))
-        if text is None:
-            return None, "variant %s is not written by a recognised writer: %s" % (vname, show(t)[:120])
-        if vname in out and out[vname] != [text, args]:
+        ev = []
+
+        def val(x):
+            return re.sub(r"\(arg1 as %s\)" % re.escape(vname), "$V", show(x))
+        for key, args, res, e in p.calls:
+            if not args or args[0] != P(2) and not (len(args) == 2 and args[1] == P(2)):
+                continue
+            if re.match(r"^std::fmt::Formatter::<'_>::write_str$", key) and isinstance(args[1], tuple) and args[1][0] == "str":
+                ev.append(("text", args[1][1]))
+            elif re.search(r"std::fmt::Write>::write_char$|Formatter::<'_>::write_char$", key):
+                ev.append(("show", val(args[1])))
+            elif re.search(r" as std::fmt::Display>::fmt$", key) and args[1] == P(2):
+                ev.append(("show", val(args[0])))
+            elif re.match(r"^std::fmt::Formatter::<'_>::write_fmt$", key):
+                a = args[1]
+                if is_call(a, re.compile(r"^std::fmt::Arguments::<'_>::from_str$")) and a[2][0][0] == "str":
+                    ev.append(("text", a[2][0][1]))
+                elif is_call(a, re.compile(r"^std::fmt::Arguments::<'_>::new::<")) and a[2][0][0] == "mem" and a[2][1][0] == "array":
+                    # the template interleaves length-prefixed literal pieces with placeholder opcodes (>= 0x80)
+                    bs, i, argv = list(a[2][0][1]), 0, list(a[2][1][1])
+                    while i < len(bs):
+                        b = bs[i]
+                        if b == 0:
+                            break
+                        if b < 0x80:
+                            ev.append(("text", bytes(bs[i + 1:i + 1 + b]).decode("utf-8", "replace")))
+                            i += 1 + b
+                        else:
+                            x = argv.pop(0) if argv else None
+                            if x is not None and is_call(x, re.compile(r"::new_display::<")) and len(x[2]) == 1 and b == 0xC0:
+                                ev.append(("show", val(x[2][0])))
+                            else:
+                                ev.append(("fmt", "%02x %s" % (b, val(x) if x is not None else "?")))
+                            i += 1
+                else:
+                    return None, "variant %s: unrecognised format arguments %s" % (vname, show(a)[:100])
+            else:
+                return None, "variant %s writes through %s" % (vname, key[-60:])
+        seqs.setdefault(vname, []).append(ev)
+    out = {}
+    for vname, lst in seqs.items():
+        full = max(lst, key=len)
+        if any(x != full[:len(x)] for x in lst):
             return None, "variant %s is written in two different ways" % vname
-        out[vname] = [text, args]
+        text, shown = "", []
+        for kind, x in full:
+            if kind == "text":
+                text += x
+            else:
+                text += "{}"
+                shown.append(x if kind == "show" else "fmt " + x)
+        out[vname] = [text, shown]
     return out, ""
 
 
